@@ -85,6 +85,14 @@ CommonTags(d, want, post) ==
 \* predicates every logged state must satisfy
 StateTags(post, h) ==
     IfNot(Inv_C17(post), "C17") \cup IfNot(Inv_C18(post), "C18") \cup IfNot(Inv_Claims(post, h), "C32")
+\* C17: the supply changes only through relay rewards being minted (proof) and through burns
+\* (slashing at BeginBlock, replay penalty of a proof, DAO burn)
+SupplyTags(e, pre, post) ==
+    IF post.supply = pre.supply \/ e.ev = "reset" THEN {}
+    ELSE IF e.ev = "BeginBlock" /\ post.supply < pre.supply THEN {}
+    ELSE IF e.ev = "DeliverTx" /\ e.tx.kind = "proof" THEN {}
+    ELSE IF e.ev = "DeliverTx" /\ e.tx.kind = "dao_burn" /\ post.supply < pre.supply THEN {}
+    ELSE {"C17"}
 
 -----------------------------------------------------------------------------
 \* BeginBlock
@@ -105,7 +113,7 @@ BeginTags(pre, c, e, post, newC) ==
 
 -----------------------------------------------------------------------------
 \* DeliverTx
-AuthClasses == {"unauthorized", "txbasic", "noaccount", "emptypk", "depth"}
+AuthClasses == {"unauthorized", "txbasic", "noaccount", "emptypk", "depth", "nopk-panic"}
 IsEdit(pre, tx) == tx.kind = "node_stake" /\ N!HasVal(pre, tx.node) /\ N!Staked(pre.val[tx.node])
 
 \* the property that owns the outcome of an authenticated request
@@ -203,6 +211,9 @@ DeliverTagsD(pre, c, e, post, newC, r, cc, d) ==
                          \cup IfNot(G!Step_C37_Upgrade(pre, tx, post, ok), "C37")
                     ELSE {})
             \cup (IF tx.kind \in K!ClaimsKinds THEN ClaimsPropTags(pre, cc, e) ELSE {})
+            \* C32 in its own words: an accepted claim satisfies the property's acceptance conditions
+            \cup (IF tx.kind = "claim" /\ ok
+                    THEN IfNot(tx.signer = tx.node /\ K!PropClaimAcceptable(fee1, cc, tx, h, StAt, CfgAt), "C32") ELSE {})
 
 DeliverTagsW(pre, c, e, post, newC, r, cc) ==
     IF r.class # "ok"
@@ -300,7 +311,7 @@ Judge(e, pre, c, post, newC) ==
        [] e.ev = "DeliverTx"  -> DeliverTags(pre, c, e, post, newC)
        [] e.ev = "EndBlock"   -> EndTags(pre, c, e, post, newC)
        [] e.ev = "Restart"    -> RestartTags(pre, c, e, post, newC))
-    \cup StateTags(post, e.h) \cup IfNot(NoDupLists(e), "MODEL")
+    \cup StateTags(post, e.h) \cup SupplyTags(e, pre, post) \cup IfNot(NoDupLists(e), "MODEL")
 
 TraceNext ==
     /\ l <= Len(Trace)
